@@ -33,7 +33,7 @@ class BudgetExceeded(BaseException):
 class _TS:
     """Scheduler-side state of one cooperative thread."""
 
-    __slots__ = ("id", "name", "baton", "pred", "deadline", "done", "started", "is_main", "prio", "obj", "waiting_on")
+    __slots__ = ("id", "name", "baton", "pred", "deadline", "done", "started", "is_main", "prio", "obj", "waiting_on", "in_get", "ident_published", "start_interrupted")
 
     def __init__(self, tid, name, is_main=False):
         self.id = tid
@@ -48,6 +48,9 @@ class _TS:
         self.prio = 0
         self.obj = None
         self.waiting_on = None
+        self.in_get = False
+        self.ident_published = True
+        self.start_interrupted = False
 
     def __repr__(self):
         return f"T{self.id}"
@@ -312,6 +315,11 @@ class Scheduler:
         self.ns = _make_namespace(self)
 
     # ---- events (observable trace) ----
+    def _workers_outside_get(self):
+        """Worker threads that are not blocked inside queue.Queue.get: only those can already be past
+        the engine's stop check when the calling thread starts its clean-up."""
+        return sum(1 for t in self.threads if not t.is_main and t.started and not t.done and not t.in_get)
+
     def log(self, ev, **kw):
         self.seq += 1
         kw["ev"] = ev
@@ -379,7 +387,7 @@ class Scheduler:
         for t in self.threads:
             if t.done:
                 continue
-            ident = t.obj.ident if t.obj is not None else None
+            ident = t.obj._ident if t.obj is not None else None
             fr = frames.get(ident)
             if fr is not None:
                 st = traceback.extract_stack(fr)
@@ -406,8 +414,8 @@ class Scheduler:
         if kind == "release" and info and info.endswith("run_function_on_graph.py"):
             self.engine_release_steps.append(self.steps)
         cur = self.current
-        if _DEBUG and cur.obj.ident != _thread.get_ident():
-            sys.stderr.write("ROGUE in point: current=%r me=%r kind=%s\n%s\n" % (cur, [t for t in self.threads if t.obj.ident == _thread.get_ident()], kind, "".join(traceback.format_stack(limit=12))))
+        if _DEBUG and cur.obj._ident != _thread.get_ident():
+            sys.stderr.write("ROGUE in point: current=%r me=%r kind=%s\n%s\n" % (cur, [t for t in self.threads if t.obj._ident == _thread.get_ident()], kind, "".join(traceback.format_stack(limit=12))))
         if cur.is_main and inject:
             if self.pending_interrupt or self.strategy.interrupt_now(self, kind, info):
                 self.pending_interrupt = False
@@ -417,9 +425,15 @@ class Scheduler:
                 raise KeyboardInterrupt()
         if self.settle_main:
             if cur.is_main:
-                return
-            # a worker is running although main is runnable: give main priority until it blocks
-            if self._is_runnable(self.main):
+                if not (inject and kind == "acquire"):
+                    return
+                # the first lock the calling thread takes after the interrupt: in run_function_on_graph
+                # that is queue.put(DONE) in shutdown(), just after the stop flag was set. From here on
+                # the calling thread is scheduled like any other.
+                self.settle_main = False
+                self.log("main_settled", outside_get=self._workers_outside_get())
+            # a worker is running although main is runnable: give main priority until it settles
+            elif self._is_runnable(self.main):
                 self._handoff(cur, self.main)
                 return
         nxt = self.strategy.at_point(self, kind, info)
@@ -433,8 +447,8 @@ class Scheduler:
         """Block the current thread until pred() holds (True) or the virtual timeout expires
         (False)."""
         cur = self.current
-        if _DEBUG and cur.obj.ident != _thread.get_ident():
-            sys.stderr.write("ROGUE in block_until: current=%r me=%r\n%s\n" % (cur, [t for t in self.threads if t.obj.ident == _thread.get_ident()], "".join(traceback.format_stack(limit=12))))
+        if _DEBUG and cur.obj._ident != _thread.get_ident():
+            sys.stderr.write("ROGUE in block_until: current=%r me=%r\n%s\n" % (cur, [t for t in self.threads if t.obj._ident == _thread.get_ident()], "".join(traceback.format_stack(limit=12))))
         if pred():
             return True
         if self.dead:
@@ -442,7 +456,7 @@ class Scheduler:
         if self.settle_main and cur.is_main and inject:
             # (blocking inside Condition.wait's internal re-acquire is not yet uberjob's clean-up)
             self.settle_main = False
-            self.log("main_settled")
+            self.log("main_settled", outside_get=self._workers_outside_get())
         cur.pred = pred
         cur.waiting_on = what
         cur.deadline = None if timeout is None else self.now + max(0.0, timeout)
@@ -540,9 +554,10 @@ class Scheduler:
                 out["exc"] = e
             if self.settle_main:
                 self.settle_main = False
-                self.log("main_settled")
+                self.log("main_settled", outside_get=self._workers_outside_get())
             out["seq_at_return"] = self.seq
-            out["alive_at_return"] = [t.id for t in self.threads if not t.is_main and t.started and not t.done]
+            # (a thread whose start() was interrupted cannot be joined by anyone: it only has to exit eventually)
+            out["alive_at_return"] = [t.id for t in self.threads if not t.is_main and t.started and not t.done and not t.start_interrupted]
             if not self.dead:
                 try:
                     self.block_until(
@@ -641,7 +656,7 @@ class _Monitor:
         s = cls.active
         if s is not None:
             cur = s.current
-            if cur is not None and cur.obj is not None and cur.obj.ident == _thread.get_ident():
+            if cur is not None and cur.obj is not None and cur.obj._ident == _thread.get_ident():
                 s.point("line", None)
 
     @classmethod
@@ -690,15 +705,27 @@ def _make_namespace(s: Scheduler):
             if not self.held:
                 self.held = True
                 if _DEBUG:
-                    _HIST.setdefault(id(self), []).append(("ACQ-fast", s.current.id, _thread.get_ident() == s.current.obj.ident, s.steps))
+                    _HIST.setdefault(id(self), []).append(("ACQ-fast", s.current.id, _thread.get_ident() == s.current.obj._ident, s.steps))
                 return True
             if not blocking:
                 return False
-            ok = s.block_until(lambda: not self.held, None if timeout is None or timeout < 0 else timeout, what=self, inject=inj)
+            me = s.current
+            f = sys._getframe(1)  # this thread's own frames: blocked inside queue.Queue.get?
+            for _ in range(3):
+                if f is None:
+                    break
+                if f.f_code.co_name == "get" and f.f_code.co_filename.endswith("queue.py"):
+                    me.in_get = True
+                    break
+                f = f.f_back
+            try:
+                ok = s.block_until(lambda: not self.held, None if timeout is None or timeout < 0 else timeout, what=self, inject=inj)
+            finally:
+                me.in_get = False
             if ok:
                 self.held = True
                 if _DEBUG:
-                    _HIST.setdefault(id(self), []).append(("ACQ-slow", s.current.id, _thread.get_ident() == s.current.obj.ident, s.steps))
+                    _HIST.setdefault(id(self), []).append(("ACQ-slow", s.current.id, _thread.get_ident() == s.current.obj._ident, s.steps))
                 return True
             return False
 
@@ -796,13 +823,29 @@ def _make_namespace(s: Scheduler):
             ts = s._register(self.name, obj=self)
             self._vf_ts = ts
             ts.started = True
+            ts.ident_published = False
             _rt.Thread.start(self)
-            # the OS thread exists now, but start() has not returned to the caller yet
-            s.point("thread_started", None, inject=True)
+            # the OS thread exists now, but start() has not returned to the caller yet: CPython's
+            # Thread.start waits (interruptibly) for the new thread to announce itself, and
+            # `ident` stays None until the new thread has run its first instructions
+            try:
+                s.point("thread_started", None, inject=True)
+            except BaseException:
+                ts.start_interrupted = True
+                raise
+            ts.ident_published = True
+
+        @property
+        def ident(self):
+            ts = self._vf_ts
+            if ts is not None and not ts.ident_published:
+                return None
+            return self._ident
 
         def run(self):
             ts = self._vf_ts
             ts.baton.acquire()
+            ts.ident_published = True
             try:
                 if not s.dead:
                     _rt.Thread.run(self)
@@ -814,7 +857,7 @@ def _make_namespace(s: Scheduler):
 
         def join(self, timeout=None):
             ts = self._vf_ts
-            if ts is None:
+            if ts is None or not ts.ident_published:
                 raise RuntimeError("cannot join thread before it is started")
             s.point("join", None, inject=True)
             s.block_until(lambda: ts.done, timeout, what=self)
